@@ -679,7 +679,11 @@ def check_case(ctx, lib, case, tags=()):
 
                 def spy(table, fmt, path):
                     handed["t"] = table
-                    return real_writer(table, fmt, path)
+                    try:
+                        return real_writer(table, fmt, path)
+                    except Exception as wex:  # noqa
+                        handed["writer_exc"] = wex
+                        raise
                 lib.tc.write_biom_table = spy
                 try:
                     lib.convert(args)
@@ -689,8 +693,11 @@ def check_case(ctx, lib, case, tags=()):
                 finally:
                     lib.tc.write_biom_table = real_writer
 
+                # the codec refusing the finished table (e.g. HDF5 and a category name with '/') is C01/C02's business
+                writer_refused = "writer_exc" in handed
+
                 def table_handed():
-                    if conv_exc is not None:
+                    if conv_exc is not None and not writer_refused:
                         raise conv_exc
                     return handed["t"]
 
@@ -701,9 +708,12 @@ def check_case(ctx, lib, case, tags=()):
                 # list-valued metadata under a name HDF5 has no list formatter for is C01's business
                 file_md = cli_fmt == "json" or mdmode is None or fm_name == "naive" or mdmode["value"] == "taxonomy"
                 add(nm + ":table", view_cli, guarded(table_handed), True, pr_name, cli=True)
-                add(nm + ":file-" + cli_fmt, view_cli, guarded(table_loaded), file_md, pr_name, cli=True,
-                    agree_md=file_md)
-                if conv_exc is None and "t" in handed:
+                if writer_refused:
+                    ctx.count("cli-output-file-not-writable:%s (table handed to the writer is judged)" % cli_fmt)
+                else:
+                    add(nm + ":file-" + cli_fmt, view_cli, guarded(table_loaded), file_md, pr_name, cli=True,
+                        agree_md=file_md)
+                if (conv_exc is None or writer_refused) and "t" in handed:
                     if handed["t"].type != want_type:
                         mapping_failures.append("--table-type not honoured: %r" % (handed["t"].type,))
                     if cli_extra.get("sample_md"):
